@@ -40,7 +40,7 @@ AUDIT = "Ymq.Audit.C13"
 THEOREMS = ["Ymq.C13." + t for t in (
     "cursor_inv small_recovery table_recovery large_table_recovery recycled_clean listed_complete_inv "
     "listed_complete listed_complete_rehash no_panic no_panic_rehash cofactor_no_panic fbase_new_classes log_sum_bound "
-    "cofactor_spec " + "accumulator_hits_spec class_loops_cover accumulator_spec_small accumulator_spec_tables accumulator_spec_partial accumulator_overflow_iff accumulator_overflow_witness accumulator_no_overflow_small accumulator_no_overflow_tables accumulator_spec_large accumulator_no_overflow_new accumulator_no_overflow_partial smooths_threshold_spec smooth_candidate_reported table_bucket_exact").split()]
+    "cofactor_spec " + "accumulator_hits_spec class_loops_cover accumulator_spec_small accumulator_spec_tables accumulator_spec_hits accumulator_overflow_iff accumulator_overflow_witness accumulator_no_overflow_small accumulator_no_overflow_tables accumulator_spec_large accumulator_no_overflow_new accumulator_spec accumulator_no_overflow accumulator_no_overflow_hits smooths_threshold_spec smooth_candidate_reported table_bucket_exact").split()]
 PROFILES = ["release", "chk"]
 TIMEOUT = 120.0
 HYPOTHESES = [
@@ -1254,16 +1254,17 @@ MODELLED = [
 ]
 UNMODELLED = [
     "the SIMD intrinsics of the threshold scan (wide::u8x16 max/compare) are modelled by their meaning (some byte of the 16-byte "
-    "chunk exceeds threshold2 - 1); accumulator_spec_partial / accumulator_no_overflow_partial keep their names: the closed "
-    "form blk[x] = sum of bitlen p over the non-skipped primes with a root at x (small primes once per distinct root, all "
-    "primes >= 32768 through the size-class tables and SieveTableLarge) is proved for ANY factor-base size on the path "
-    "new -> b < nblocks rounds -> sieve_block (accumulator_spec_large: exact when no table lost an entry; "
-    "accumulator_no_overflow_new: no u8 overflow under the log_sum_bound hypothesis WITHOUT any hypothesis on the overflow "
-    "counters, byte <= closed form, = when nothing was lost; every bucket is a sublist of the registered entries). NOT proved: "
-    "the same statements for the tables re-filled by rehash (rehashTable/rehashLTable run the same add folds over "
-    "vlargeOffsets after reset; the generic lemmas table_class_shape/ltable_class_shape apply, the loop over the factor base "
-    "of rehashStep and the small-prime part on the rehash path are not assembled); the closed form on the rehash path is "
-    "checked on the code by the independent oracle",
+    "chunk exceeds threshold2 - 1)",
+    "accumulator_spec / accumulator_no_overflow are GENERAL (any factor-base size: cursors, size-class tables, SieveTableLarge; "
+    "path new -> any number of rounds [sieve the whole interval, rehash(roots)] -> b < nblocks rounds -> sieve_block, the path "
+    "of listed_complete_rehash): blk[x] = sum of bitlen p over the non-skipped primes < 32768 with a root (given to new) at "
+    "block rs.length*nblocks+b, plus sum of bitlen p over ALL primes >= 32768 with a root of the last root table at block b; "
+    "exact when no table lost an entry, <= otherwise (entries lost to a bucket overflow are really not added); "
+    "accumulator_no_overflow needs no hypothesis on the overflow counters. Hypotheses kept: the two roots of a prime >= 32768 "
+    "differ in the last root table (debug_assert in new; rehash registers an equal root twice), recycled tables have the same "
+    "nblocks, every round sieves the whole interval before rehash. The former accumulator_spec_partial / "
+    "accumulator_no_overflow_partial are renamed accumulator_spec_hits / accumulator_no_overflow_hits (hits-level lemmas); the "
+    "closed form is also checked on the code by the independent oracle",
     "log_sum_bound gives the region where the u8 log accumulators cannot overflow (bitlen(value) + number "
     "of distinct prime divisors <= 256); beyond it the overflow is reachable (finding reported: 398-bit n, Algo::Qs, checked profile)",
     "Dividers::{modu16, modi64, divmod_uint} are modelled as %, / (property C08); fbase::try_factor64 (Pollard rho / ECM) is a parameter "
